@@ -146,7 +146,7 @@ let validate_pending (before : med option) (after : med option) =
     (Stdlib.List.rev !pending);
   pending := []
 
-let conv_oracle (c : composition) (n : nat) : interval list =
+let conv_oracle (_d : memdict) (_k : engine_kind) (c : composition) (n : nat) : interval list =
   match !queue with
   | [] -> raise Oracle_underflow
   | l :: rest ->
